@@ -390,6 +390,10 @@ func (tb *Table) Bin(op Op, a, b *Term) *Term {
 		if b.IsConst() {
 			return tb.Bin(OpAdd, a, tb.Const(s, -b.Val))
 		}
+		// 0 - (0 - x) -> x
+		if a.IsConst() && a.Val == 0 && b.Op == OpSub && b.A[0].IsConst() && b.A[0].Val == 0 {
+			return b.A[1]
+		}
 	case OpMul:
 		if a.IsConst() {
 			a, b = b, a
@@ -403,6 +407,35 @@ func (tb *Table) Bin(op Op, a, b *Term) *Term {
 			}
 			if bits.OnesCount64(b.Val) == 1 {
 				return tb.Bin(OpShl, a, tb.Const(s, uint64(bits.TrailingZeros64(b.Val))))
+			}
+			// narrowing: a bounded value times a constant that cannot overflow k << w bits is computed
+			// in k bits (decimal kernels: a 64-bit multiplier per digit otherwise)
+			if hi, lo := bits.Mul64(a.UB(), b.Val); hi == 0 {
+				if k := bits.Len64(lo); k >= 1 && k+8 <= int(w) {
+					ks := Sort(k)
+					return tb.ZExt(tb.Bin(OpMul, tb.Extract(a, k-1, 0), tb.Const(ks, b.Val)), s)
+				}
+			}
+		}
+	case OpUDiv, OpURem:
+		if b.IsConst() && b.Val > 0 {
+			ua := a.UB()
+			if b.Val > ua {
+				if op == OpUDiv {
+					return tb.Const(s, 0)
+				}
+				return a
+			}
+			if b.Val == 1 {
+				if op == OpUDiv {
+					return a
+				}
+				return tb.Const(s, 0)
+			}
+			// narrowing: dividend below 2^k with k << w: divide in k bits
+			if k := bits.Len64(ua); k >= 1 && k+8 <= int(w) {
+				ks := Sort(k)
+				return tb.ZExt(tb.Bin(op, tb.Extract(a, k-1, 0), tb.Const(ks, b.Val)), s)
 			}
 		}
 	case OpBAnd:
@@ -572,6 +605,9 @@ func (tb *Table) Neg(a *Term) *Term {
 	}
 	if a.IsConst() {
 		return tb.Const(a.Sort, -a.Val)
+	}
+	if a.Op == OpNeg {
+		return a.A[0]
 	}
 	return tb.mk(OpNeg, a.Sort, a, nil, nil, 0, 0, 0, "")
 }
